@@ -11,6 +11,7 @@ for n in (2, 3):
     JOBS.append(Job('server.pipeline.n%d' % n, 'C12/server.cpp', 'h_pipeline', 'B', defs={'NREQ': n}, reach=['pipeline'], timeout=1500, tier='quick' if n == 2 else 'quick',
                     clause='pipeline of %d requests: completion order/timing symbolic, close request at a symbolic position, 1-2 segments' % n))
 JOBS.append(Job('server.order.n4', 'C12/server.cpp', 'h_pipeline', 'B', defs={'NREQ': 4, 'LATE_ONLY': None}, reach=['pipeline'], timeout=1500, clause='4 pipelined requests, every completion order and send-complete timing (all late, keep-alive)'))
+JOBS.append(Job('server.tailsplit.n2', 'C12/server.cpp', 'h_pipeline', 'B', defs={'NREQ': 2, 'TAILSPLIT': None}, reach=['pipeline'], timeout=1500, clause='2 requests, the last 0..24 bytes of the stream arrive in a segment of their own; the transport seam honours the receive threshold the server registered (BufferedFd contract): every request is still handled and answered'))
 JOBS.append(Job('server.pipeline.n4', 'C12/server.cpp', 'h_pipeline', 'B', defs={'NREQ': 4}, reach=['pipeline'], timeout=3400, tier='thorough', clause='pipeline of 4 requests'))
 META = dict(
     explanation='Path-wise symbolic execution (engine/symir.py, z3) of the real RequestParser / Server::Impl / Context / Respond / url / string code compiled to LLVM IR from the working tree. '
